@@ -45,6 +45,50 @@ def check_cstring(ctx, FB, crate, fn):
     return n_cases
 
 
+def check_bool_reader(ctx, FB, crate, fn, width):
+    """read_bool_uN: consumes exactly N bytes; false iff all of them are zero"""
+    n_cases = 0
+    pats = [["z"] * width] + [["z"] * i + ["nz"] + ["z"] * (width - i - 1) for i in range(width)] + [["nz"] * width]
+    for cls in pats:
+        toks = _toks(cls + ["any"] * EXTRA)
+        st = Stream(toks)
+        res, err = _run(Mini(FB, crate), fn["path"], [st])
+        n_cases += 1
+        want = any(c == "nz" for c in cls)
+        why = err
+        if why is None:
+            if not (isinstance(res, tuple) and res[0] == "Ok" and isinstance(res[1], bool)):
+                why = f"returns {res!r}"
+            elif st.pos != width:
+                why = f"consumes {st.pos} bytes, the wire type has {width}"
+            elif res[1] != want:
+                why = f"returns {res[1]} for the byte classes {cls} (0 means false and every other value true)"
+        if why:
+            ctx.violate("leaf.codecs", f"{crate}::{fn['path']}|bool", f"{fn['path']}: Bool of {width} byte(s): {why}", fn["file"], fn["line"])
+            break
+    return n_cases
+
+
+def check_guid_reader(ctx, FB, crate, fn):
+    """read_guid: 8 bytes, little endian, handed to Guid::new unchanged"""
+    toks = _toks(["any"] * (8 + EXTRA))
+    st = Stream(toks)
+    res, err = _run(Mini(FB, crate), fn["path"], [st])
+    why = err
+    if why is None:
+        v = res[1] if isinstance(res, tuple) and res[0] == "Ok" else None
+        inner = v[2].get("guid") if isinstance(v, tuple) and v and v[0] == "struct" else None
+        if inner is None:
+            why = f"returns {res!r}"
+        elif st.pos != 8:
+            why = f"consumes {st.pos} bytes, a Guid has 8"
+        elif to_wide(inner, 8).slots != toks[:8]:
+            why = f"the Guid holds {inner!r}, the wire bytes in little-endian order are {toks[:8]}"
+    if why:
+        ctx.violate("leaf.codecs", f"{crate}::{fn['path']}|guid", f"{fn['path']}: {why}", fn["file"], fn["line"])
+    return 1
+
+
 def check_sized_cstring(ctx, FB, crate, fn):
     n_cases = 0
     for n in list(range(0, 300)) + [7999]:
@@ -499,7 +543,7 @@ def run(ctx):
     FB = {c: facts(c) for c in ("wow_world_messages", "wow_world_base", "wow_login_messages")}
     fns = 0
     cases = 0
-    found = {"cstring": 0, "sized": 0, "fixed": 0, "guid": 0}
+    found = {"cstring": 0, "sized": 0, "fixed": 0, "guid": 0, "bool": 0, "guidrd": 0}
     for crate in ("wow_world_messages", "wow_login_messages"):
         F = FB[crate]
         for fn in F.all("fn", lambda p: p.startswith("crate::util::")):
@@ -517,6 +561,14 @@ def run(ctx):
                 cases += check_fixed_string(ctx, FB, crate, fn)
                 found["fixed"] += 1
                 fns += 1
+            elif base in ("read_bool_u8", "read_bool_u16", "read_bool_u32"):
+                cases += check_bool_reader(ctx, FB, crate, fn, {"8": 1, "16": 2, "32": 4}[base[11:]])
+                found["bool"] += 1
+                fns += 1
+            elif base == "read_guid":
+                cases += check_guid_reader(ctx, FB, crate, fn)
+                found["guidrd"] += 1
+                fns += 1
     F = FB["wow_world_messages"]
     rd = F.fn("crate::util::functions::shared::read_packed_guid")
     wr = F.fn("crate::util::functions::shared::write_packed_guid")
@@ -527,7 +579,7 @@ def run(ctx):
         cases += check_packed_guid(ctx, FB, "wow_world_messages", rd, wr, sz)
         found["guid"] = 3
         fns += 3
-    for k, floor in (("cstring", 4), ("sized", 1), ("fixed", 3)):
+    for k, floor in (("cstring", 4), ("sized", 1), ("fixed", 3), ("bool", 6), ("guidrd", 1)):
         if found[k] < floor:
             ctx.violate("leaf.codecs", f"anchor|{k}", f"only {found[k]} {k} string readers found, expected at least {floor} (anchor disappeared)")
     cases += check_builtins(ctx, FB)
